@@ -26,7 +26,7 @@ def _same(a, b):
                                                  np.ascontiguousarray(b).view(np.uint64))
 
 
-def _check_stack(T, N, W, seed=0, inputs=None, first=None):
+def _check_stack(T, N, W, seed=0, inputs=None, first=None, order='C'):
     from fast_ticc import data_preparation as dp
     if first:
         # call history of the witness: another geometry stacked first, in this process
@@ -35,6 +35,8 @@ def _check_stack(T, N, W, seed=0, inputs=None, first=None):
         except Exception:
             pass
     data = _payload(seed, (T, N), inputs)
+    if order == 'F':
+        data = np.asfortranarray(data)
     keep = data.copy()
     out = dp.stack_training_data(data, W)
     if out.shape != (T - W + 1, N * W):
@@ -56,7 +58,7 @@ def replay(w):
     try:
         if ob.startswith('stack_'):
             sig, obs = _check_stack(int(n['T']), int(n['N']), int(n.get('W', w['inputs'].get('W', 1))), inputs=w['inputs'],
-                                    first=n.get('first'))
+                                    first=n.get('first'), order=n.get('order', 'C'))
         elif ob == 'multi_is_concatenation_in_order':
             W, N, lens = int(n['W']), int(n['N']), [int(x) for x in n['lens']]
             series = [_payload(s + 1, (L, N), w['inputs'], 'd%d' % s) for s, L in enumerate(lens)]
@@ -100,7 +102,7 @@ def validate(witnesses):
         n = w.get('notes') or {}
         if 'shape' in w.get('outputs', {}) and 'T' in n and 'W' in n:
             T, N, W = int(n['T']), int(n['N']), int(n['W'])
-            sig, obs = _check_stack(T, N, W, seed=checked, first=n.get('first'))
+            sig, obs = _check_stack(T, N, W, seed=checked, first=n.get('first'), order=n.get('order', 'C'))
             out = dp.stack_training_data(_payload(0, (T, N)), W)
             checked += 1
             if sig is None and list(out.shape) == [int(x) for x in w['outputs']['shape']]:
